@@ -233,7 +233,23 @@ def r_rollback_paired(ctx):
         else:
             ctx.ok(inst, loader.loc(c), 'normal exit unreachable without the restore when dynamicMembershipChange is on')
         # the restored set comes from the snapshot's member component (data[3]) minus self
-    ctx.expect_min(2)
+    # every path on which the loader adopts the snapshot (writes the applied index) restores the member set,
+    # whether or not the journal was replaced
+    dyn_lit = lex.tb.literal(U.parse_expr('self.%s.dynamicMembershipChange' % R.conf), True)
+    for st, kind in U.assigns_to_attr(P, loader, R.lastApplied):
+        an = U.node_containing(lcfg, st)
+        inst = 'adopting the snapshot position restores the member set'
+        # forward: from the adoption to the exit; backward: restore may also precede the adoption
+        fwd = lex.run(start=an.id, init=frozenset([dyn_lit]), avoid=rnodes, follow_exc=False)
+        bwd = lex.run(init=frozenset([dyn_lit]), avoid=rnodes, follow_exc=False)
+        ctx.tick()
+        if fwd.reached(lcfg.exit.id) and bwd.reached(an.id):
+            ctx.violation('%s:snapshot-adopted-without-member-restore' % loader.qualname, loader.loc(st),
+                          'with dynamicMembershipChange enabled the loader can adopt the snapshot position without restoring the member set stored in the snapshot '
+                          '(membership entries compacted away are then forgotten): %s' % bwd.path_str(an.id, bwd.facts_at(an.id)[0]), instance=inst)
+        else:
+            ctx.ok(inst, loader.loc(st), 'no path passes the adoption and reaches the exit without the restore')
+    ctx.expect_min(3)
 
 
 @rule('R-apply-on-append', 'leader: a membership command is appended only if the mutation succeeded, and not appended when '
